@@ -138,7 +138,10 @@ def same_sector(a, b):
 
 def charge_of(x):
     try:
-        return tuple(x.to_tensor().n), tuple(x.A[0].get_legs(1).s for _ in range(1))
+        # total charge; signature of the physical legs; charges of the two boundary virtual legs (yastn keeps them as legs:
+        # the same vector with its charge on the first or on the last virtual leg - e.g. after reverse_sites() - lives in a
+        # different space, so overlaps between the two layouts are not defined)
+        return tuple(x.to_tensor().n), (tuple(x.A[0].get_legs(1).s for _ in range(1)), x.virtual_leg('first').t, x.virtual_leg('last').t)
     except Exception:
         return None
 
@@ -155,6 +158,13 @@ def measurements(states, loc, acc, case_base):
     """overlaps and expectation values between all reached states"""
     vecs = [(n, x, d) for n, x, d in states if x.nr_phys == 1]
     opsl = [(n, x, d) for n, x, d in states if x.nr_phys == 2]
+    # states that vanish by cancellation (x - x) are represented by non-zero tensors: matrix elements are then round-off of
+    # the size of the cancelling terms, for which the dense zero offers no scale - they are compared through their norm only
+    for (na, a, da) in vecs:
+        if not np.any(da):
+            acc.cnt['zero_states_norm_only'] += 1
+            _num(acc, case_base, f'norm({na}) (zero state)', lambda a=a: float(a.norm()) * 1e-6, 0.0)
+    vecs = [(n, x, d) for n, x, d in vecs if np.any(d)]
     for (na, a, da) in vecs:
         acc.check_time()
         _num(acc, case_base, f'norm({na})', lambda a=a: a.norm(), np.linalg.norm(da))
